@@ -11,6 +11,7 @@ EXPLANATION = ("C14: pipe callbacks are invoked only from nni_pipe_run_cb, behin
                "the timer callback reconnects; listeners keep accepting (C11.R4)."
                " Also: s_want_evs is recomputed on every registration change (R7) and the redial back-off is clamped after every growth (R8).")
 EXPLANATION += " Round 3: an operation taken from another endpoint's list is not completed with a code that ends a redial loop (R9)."
+EXPLANATION += " Round 5: the connect slot of a transport can be entered again -- no refusal hangs on a one-way latch (R12); a transport that creates the pipe before the connection is confirmed settles the parked connect wherever it gives that pipe up (R13)."
 
 
 def rule_r1(ctx):
@@ -410,6 +411,177 @@ def rule_r11(ctx):
         raise AnalysisBroken("no store of d_inirtime outside the constructors found")
 
 
+# ---------------------------------------------------------------------------
+# R12: the connect slot can be entered again (a dialer dials more than once)
+
+_TERMINAL = {"NNG_ECLOSED", "NNG_ECANCELED", "NNG_ESTOPPED"}
+
+
+def _bool_field_writes(prog, file):
+    """{record.field: (set-true sites, cleared sites)} for the boolean fields assigned in the functions of one file"""
+    out = {}
+    for f in prog.fns_in(file):
+        if f.cfg_failed:
+            continue
+        for t in f.assigns():
+            l = t.node["lhs"]
+            if l.get("k") != "mem" or (l.get("t") or "") not in ("bool", "_Bool"):
+                continue
+            v = const_of(f.expand(t.node["rhs"]))
+            ent = out.setdefault(last_field(l), ([], []))
+            if v is not None and v != 0:
+                ent[0].append((f, t))
+            else:
+                ent[1].append((f, t))       # false, or a computed value: the field is not a one-way latch
+    return out
+
+
+def rule_r12(ctx):
+    r = ctx.rule("C14.R12", "T2", "a dialer can dial again: the transport function in the d_connect slot is entered once per attempt, "
+                 "so none of its refusals (an error other than the terminal NNG_ECLOSED / NNG_ECANCELED / NNG_ESTOPPED) may hang on "
+                 "a boolean field that is only ever set and that the endpoint's close / stop functions do not own -- such a "
+                 "latch, once set by the first attempt, fails every redial with a code the core keeps retrying on, and the "
+                 "socket is never connected again", floor=4)
+    prog = ctx.prog
+    n = 0
+    conns = prog.slot_fns("nni_sp_dialer_ops.d_connect")
+    if not conns:
+        raise AnalysisBroken("no function is bound to nni_sp_dialer_ops.d_connect")
+    for f in conns:
+        if f.cfg_failed:
+            raise AnalysisBroken("%s has no CFG" % f.name)
+        writes = _bool_field_writes(prog, f.file)
+        # what the close / stop / fini slots of the same file set
+        closers = set()
+        for slot in ("nni_sp_dialer_ops.d_close", "nni_sp_dialer_ops.d_stop", "nni_sp_dialer_ops.d_fini",
+                     "nni_sp_listener_ops.l_close", "nni_sp_listener_ops.l_stop"):
+            for g in prog.slot_fns(slot):
+                if g.file == f.file:
+                    closers.add(g.name)
+        grow = True
+        while grow:
+            grow = False
+            for g in prog.fns_in(f.file):
+                if g.name in closers or g.cfg_failed:
+                    continue
+                # static helpers called by a closer
+                if g.static and any(c.node.get("fn") == g.name for h in prog.fns_in(f.file) if h.name in closers and not h.cfg_failed for c in h.calls()):
+                    closers.add(g.name)
+                    grow = True
+        facts = G.edge_facts(f)
+        for c in f.calls(("nni_aio_finish_error",)):
+            a = c.node["args"]
+            code = f.expand(a[1]) if len(a) > 1 else None
+            if code is None or code.get("k") != "enum":
+                continue        # a computed result (rv of a failed step): not a standing refusal
+            if code.get("n") in _TERMINAL:
+                continue
+            n += 1
+            bad = None
+            for bid, k, atom, val in facts:
+                if not val or atom.get("k") != "mem" or (atom.get("t") or "") not in ("bool", "_Bool"):
+                    continue
+                # the refusal hangs on the flag: it is reached only through this edge, or this edge (one arm of a
+                # disjunction) leads nowhere else
+                succ = f.blocks[bid].succs[k]
+                if not G.dominated(f, (c.b, c.i), {bid: k}) and not (
+                        succ is not None and G.must_pass(f, (succ, 0), {(c.b, c.i)}) is None):
+                    continue
+                fld = last_field(atom)
+                sets, clears = writes.get(fld, ([], []))
+                if sets and not clears and not any(g.name in closers for g, _ in sets):
+                    bad = (fld, sets[0][0].name, sets[0][1].line)
+                    break
+            if bad:
+                ctx.fail(r, f, "%s refuses for good once %s is set" % (f.name, bad[0]), c.line,
+                         "%s completes the attempt with %s under %s, which %s sets (line %s) and nothing ever clears: the "
+                         "first attempt arms it and every redial after a lost pipe or a failed attempt is refused; the core "
+                         "treats %s as retryable and retries for ever" % (f.name, code.get("n"), bad[0], bad[1], bad[2], code.get("n")))
+            else:
+                r.ob(f, "refusal with %s at line %s does not hang on a one-way latch" % (code.get("n"), c.line))
+        r.ob(f, "%s: connect slot examined" % f.name)
+        n += 1
+    if n < 4:
+        raise AnalysisBroken("only %d connect-slot obligations" % n)
+
+
+# ---------------------------------------------------------------------------
+# R13: giving up the pipe that carries a connection attempt settles the waiting connect
+
+def rule_r13(ctx):
+    r = ctx.rule("C14.R13", "T2", "in a transport whose dialer creates its pipe before the connection is confirmed (the connect operation "
+                 "stays parked on a list of the endpoint meanwhile), every function that gives a pipe up (nni_pipe_close on a pipe "
+                 "of the endpoint) also looks for the parked connect and completes it in the same critical section -- itself or "
+                 "through a helper -- unless it runs on the listener side only: otherwise a refused attempt leaves the dial "
+                 "pending for ever (a synchronous nng_dial never returns, a background dialer never dials again)", floor=3)
+    prog = ctx.prog
+    n = 0
+    for conn in prog.slot_fns("nni_sp_dialer_ops.d_connect"):
+        if conn.cfg_failed:
+            continue
+        # the list the connect operation is parked on
+        parks = [last_field(conn.expand(c.node["args"][0])) for c in conn.calls(("nni_list_append", "nni_aio_list_append"))
+                 if c.node["args"] and len(c.node["args"]) > 1]
+        parks = [x for x in parks if x]
+        fns = [g for g in prog.fns_in(conn.file) if not g.cfg_failed]
+        def hands_over(g, depth=0):
+            """g (or a helper of the same file) gives the pipe to the waiting operation: nni_aio_set_output"""
+            for c in g.calls():
+                if c.node.get("fn") == "nni_aio_set_output":
+                    return True
+                h = prog.resolve(g, c.node["fn"]) if c.node.get("fn") else None
+                if depth < 2 and h is not None and h is not g and h.file == g.file and not h.cfg_failed and hands_over(h, depth + 1):
+                    return True
+            return False
+        early = [g for g in fns if list(g.calls(("nni_pipe_alloc_dialer",))) and not hands_over(g)]
+        if not parks or not early:
+            continue      # the pipe is created when the connection exists (stream transports)
+        park = parks[0]
+
+        def settles(g, depth=0):
+            """g completes the first element of the park list (or calls a static helper that does)"""
+            got = set()
+            for c in g.calls(("nni_aio_finish_error", "nni_aio_finish")):
+                a0 = g.expand(c.node["args"][0]) if c.node["args"] else None
+                if a0 is not None and a0.get("k") == "var":
+                    for _, rhs in G.var_defs(g, a0["n"]):
+                        if rhs is not None and any(m.get("k") == "call" and m.get("fn") == "nni_list_first" and m.get("args") and
+                                                   last_field(g.expand(m["args"][0])) == park for m in walk(rhs)):
+                            got.add((c.b, c.i))
+            if got:
+                return True
+            if depth < 2:
+                for c in g.calls():
+                    h = prog.resolve(g, c.node["fn"]) if c.node.get("fn") else None
+                    if h is not None and h is not g and h.file == g.file and h.static and not h.cfg_failed and settles(h, depth + 1):
+                        return True
+            return False
+        for g in fns:
+            sites = list(g.calls(("nni_pipe_close",)))
+            if not sites:
+                continue
+            for c in sites:
+                n += 1
+                # listener-only path: dominated by an edge on which the endpoint's `dialer` mark is false
+                lonly = any(not val and atom.get("k") == "mem" and (last_field(atom) or "").endswith(".dialer") and
+                            G.dominated(g, (c.b, c.i), {bid: k}) for bid, k, atom, val in G.edge_facts(g))
+                # the pipe's own teardown of a failed creation in the function that just created it
+                fresh = bool(list(g.calls(("nni_pipe_alloc_dialer", "nni_pipe_alloc_listener"))))
+                if settles(g):
+                    r.ob(g, "%s gives a pipe up (line %s) and settles the connect parked on %s" % (g.name, c.line, park))
+                elif lonly:
+                    r.ob(g, "%s line %s runs on listener endpoints only" % (g.name, c.line))
+                elif fresh and any(x.node.get("fn") in ("nni_aio_finish_error",) for x in g.calls()):
+                    r.ob(g, "%s line %s closes the pipe it has just created and fails the connect itself" % (g.name, c.line))
+                else:
+                    ctx.fail(r, g, "%s gives a pipe up without settling the parked connect" % g.name, c.line,
+                             "%s calls nni_pipe_close (line %s) on a pipe that may be carrying the dialer's connection attempt and "
+                             "neither it nor a helper it calls completes the operation parked on %s: the attempt is over but the "
+                             "dial stays pending" % (g.name, c.line, park))
+    if n < 3:
+        raise AnalysisBroken("only %d pipe give-up sites in transports with early pipes" % n)
+
+
 def run(ctx):
     ctx.guard(rule_r1)
     ctx.guard(rule_r2)
@@ -423,3 +595,5 @@ def run(ctx):
     ctx.guard(rule_r9)
     ctx.guard(rule_r10)
     ctx.guard(rule_r11)
+    ctx.guard(rule_r12)
+    ctx.guard(rule_r13)
